@@ -51,6 +51,8 @@ CFG = {
             "both argument orders of every pair; 80% dyadic tolerances 2^-30..2^30, 20% decimal; plus a fixed corpus of edge cases; "
             "rings that visit a vertex twice (pinched / figure-eight, second visit bit-identical or within tol/4) under ALL start-vertex pairs, alone and as "
             "holes in polygons / multi-polygons / collections; vertex and member counts 64,128,129,1024,1025,2048; deletions/insertions at the END of a list. "
+            "every 7th base has coordinates of magnitude 2^24..2^40 on a 2^-10 lattice with tol 2^-30/2^-20/1e-9 (a-b exact, a±tol not representable; zero perturbation); "
+            "ring moved to / rings exchanged between sibling member polygons of a multi-polygon or collection (F). "
             "Every pair is evaluated by the harness under five operand layouts (plain; packed = consecutive windows of one flat buffer with spare capacity; "
             "shared = prefix lists are re-slices of the other operand's backing array / same slice on both sides; nil for empty; in-place overwrite of an "
             "already-compared operand), four calls per layout (AB, BA, AB, BA) with a bit-for-bit comparison of both operands after every call. "
